@@ -72,11 +72,18 @@ func (c *EvalCtx) bindResults(sig *types.Signature, rvs []Val) {
 }
 
 func (c *EvalCtx) fail(format string, a ...interface{}) Val {
-	c.fe.errorf("contract %s: "+format, append([]interface{}{c.conFile}, a...)...)
+	msg := fmt.Sprintf("contract %s: "+format, append([]interface{}{c.conFile}, a...)...)
+	c.fe.clauseErr = msg
+	c.fe.warns = append(c.fe.warns, msg)
 	return IntV{c.fe.fresh("bad", "Int")}
 }
 
 func (c *EvalCtx) evalBool(x *CExpr) Term {
+	if c.fe.evalDepth == 0 {
+		c.fe.clauseErr = ""
+	}
+	c.fe.evalDepth++
+	defer func() { c.fe.evalDepth-- }()
 	if x.Op == "==>" {
 		return tImp(c.evalBool(x.L), c.evalBool(x.R))
 	}
